@@ -69,6 +69,9 @@ def lname(e) -> Optional[str]:
         return f"{b}.{e[2]}" if b else None
     if e[0] == "cast":
         return lname(e[2])
+    if e[0] == "mcall" and e[2] == "length" and not e[3]:
+        b = lname(e[1])
+        return f"{b}.length()" if b else None
     return None
 
 
@@ -197,7 +200,9 @@ class Exec:
             return TOP()
         if t == "mcall":
             if e[2] == "length":
-                return Iv(0, INF)
+                n = lname(e)
+                iv = self.read(n, st) if n else TOP()
+                return iv.meet(Iv(0, INF))
             return TOP()
         if t == "assign":
             return self.ev(e[3], st)
@@ -355,6 +360,31 @@ class Exec:
         if src:
             st.lo[name] = st.lo.get(src, frozenset()) | {src} | {a for (a, b) in self.leq if b == src}
             st.hi[name] = st.hi.get(src, frozenset()) | {src} | {b for (a, b) in self.leq if a == src}
+        ln_ = f"{name}.length()"
+        core = e
+        while core is not None and core[0] in ("ctor", "cast") and ((core[0] == "ctor" and len(core[2]) == 1) or core[0] == "cast"):
+            core = core[2][0] if core[0] == "ctor" else core[2]
+        if core is not None and core[0] == "mcall" and core[2] == "substring" and len(core[3]) == 2 and core[3][0] == ("lit", 0):
+            w = core[3][1]
+            wn = lname(w)
+            st.v[ln_] = Iv(0, self.ev(w, st).hi)
+            st.lo.pop(ln_, None)
+            st.hi[ln_] = (frozenset({wn}) | st.hi.get(wn, frozenset())) if wn else frozenset()
+        elif core is not None and lname(core) and f"{lname(core)}.length()" in st.v or (core is not None and lname(core) and f"{lname(core)}.length()" in st.hi):
+            sn = f"{lname(core)}.length()"
+            if sn in st.v:
+                st.v[ln_] = st.v[sn]
+            st.hi[ln_] = st.hi.get(sn, frozenset()) | {sn}
+            st.lo[ln_] = st.lo.get(sn, frozenset()) | {sn}
+        elif core is not None and core[0] == "lit" and isinstance(core[1], str):
+            n_chars = max(0, len(core[1]) - 2)
+            st.v[ln_] = Iv(n_chars, n_chars)
+            st.hi.pop(ln_, None)
+            st.lo.pop(ln_, None)
+        elif ln_ in st.v or ln_ in st.hi:
+            st.v.pop(ln_, None)
+            st.hi.pop(ln_, None)
+            st.lo.pop(ln_, None)
         if e is not None and e[0] == "lit" and isinstance(e[1], bool):
             st.flags[name] = e[1]
         elif name in st.flags:
